@@ -47,412 +47,417 @@ def run(ctx):
     ur = ctx.unit(repo_unit('Random.cc'))
 
     # ---------------- R1
-    R = 'C20-R1'
-    CLZ = {'__builtin_clz': 32, '__builtin_clzl': 64, '__builtin_clzll': 64}
-    ls = [f for f in w.funcs('phosg::log2i') if targs(f)]
-    ctx.require(len(ls) == 8, 'log2i instantiations: %d' % len(ls))
-    for f in ls:
-        t = targs(f)[0]
-        bits = int_type_info(t)[0]
-        lab = 'log2i<%s>' % t
-        ctx.fn(lab)
-        e = ret_expr(f)
-        fl = [x for x in walk(body_of(f)) if x.get('castKind') == 'IntegralToFloating']
-        mant = {'double': 53, 'float': 24, 'long double': 64}
-        narrow = [x for x in fl if mant.get(dtype(x), 0) < bits]
-        if fl:
-            ctx.check(not narrow, R, lab + '|no-lossy-float', narrow[0] if narrow else f, 'floating route is exact for %d-bit values' % bits, 'log2i converts its %d-bit operand to %s (%d-bit significand): values just below a power of two round up and the result is one too large' % (bits, dtype(narrow[0]) if narrow else '', mant.get(dtype(narrow[0]), 0) if narrow else 0))
-            if not narrow:
-                continue
-        cl = [c for c in walk(body_of(f)) if c.get('kind') == 'CallExpr' and call_name(c) in CLZ]
-        ok = e is not None and len(cl) == 1
-        why = 'result is not W-1 - clz(v)'
-        if ok:
-            W = CLZ[call_name(cl[0])]
-            s = strip(e)
-            # (C - clz(cast v)) possibly converted to IntT
-            while s.get('kind') in ('CStyleCastExpr', 'CXXStaticCastExpr', 'CXXFunctionalCastExpr', 'ImplicitCastExpr') and s.get('inner'):
-                s = strip(s['inner'][0])
-            ok = s.get('kind') == 'BinaryOperator' and s.get('opcode') == '-' and int_value(s['inner'][0]) is not None and any(x is cl[0] for x in walk(s['inner'][1]))
+    with ctx.section('C20-R1', 'Vector-inl.hh'):
+        R = 'C20-R1'
+        CLZ = {'__builtin_clz': 32, '__builtin_clzl': 64, '__builtin_clzll': 64}
+        ls = [f for f in w.funcs('phosg::log2i') if targs(f)]
+        ctx.require(len(ls) == 8, 'log2i instantiations: %d' % len(ls))
+        for f in ls:
+            t = targs(f)[0]
+            bits = int_type_info(t)[0]
+            lab = 'log2i<%s>' % t
+            ctx.fn(lab)
+            e = ret_expr(f)
+            fl = [x for x in walk(body_of(f)) if x.get('castKind') == 'IntegralToFloating']
+            mant = {'double': 53, 'float': 24, 'long double': 64}
+            narrow = [x for x in fl if mant.get(dtype(x), 0) < bits]
+            if fl:
+                ctx.check(not narrow, R, lab + '|no-lossy-float', narrow[0] if narrow else f, 'floating route is exact for %d-bit values' % bits, 'log2i converts its %d-bit operand to %s (%d-bit significand): values just below a power of two round up and the result is one too large' % (bits, dtype(narrow[0]) if narrow else '', mant.get(dtype(narrow[0]), 0) if narrow else 0))
+                if not narrow:
+                    continue
+            cl = [c for c in walk(body_of(f)) if c.get('kind') == 'CallExpr' and call_name(c) in CLZ]
+            ok = e is not None and len(cl) == 1
+            why = 'result is not W-1 - clz(v)'
             if ok:
-                C = int_value(s['inner'][0])
-                arg = strip(call_args(cl[0])[0], casts=False)
-                at = dtype(arg)
-                ai = int_type_info(at)
-                src = arg
-                while src.get('kind') in ('CStyleCastExpr', 'CXXStaticCastExpr', 'CXXFunctionalCastExpr', 'ImplicitCastExpr', 'ParenExpr') and src.get('inner'):
-                    src = src['inner'][0]
-                is_v = (ref_decl(src) or {}).get('id') == params_of(f)[0]['id']
-                widen_ok = ai is not None and ai[0] == W and not ai[1] and W >= bits
-                ok = C == W - 1 and is_v and widen_ok
-                why = 'log2i computes %d - %s(%s): the builtin counts leading zeros of a %d-bit operand, so the constant must be %d%s' % (C, call_name(cl[0]), at, W, W - 1, '' if widen_ok else ' and the %d-bit argument must be widened to it as unsigned' % bits)
-        ctx.check(ok, R, lab + '|width-agreement', f, 'result = %s - clz over the builtin\'s own width' % (CLZ[call_name(cl[0])] - 1 if cl else '?'), why)
-    gs = [f for f in w.funcs('phosg::gcd') if targs(f)]
-    ctx.require(len(gs) == 8, 'gcd instantiations: %d' % len(gs))
-    for f in gs:
-        t = targs(f)[0]
-        body = body_of(f)
-        lp = [x for x in walk(body) if x.get('kind') == 'WhileStmt']
-        ok = len(lp) == 1 and N(while_parts(lp[0])[0]) in ('(0 != b)', '(b != 0)', 'b')
-        why = 'gcd is not a `while (b != 0)` loop'
-        if ok:
-            # one turn of the loop, executed abstractly from symbolic (a, b): it must produce (b, a mod b)
-            pa_, pb_ = params_of(f)[0], params_of(f)[1]
-            wi_ = width_of_type(dtype(pa_)) or (64, False)
-            Xg = BVExec(w)
-            env_ = {pa_['id']: sym_bv('a', wi_[0], wi_[1]), pb_['id']: sym_bv('b', wi_[0], wi_[1])}
-            try:
-                Xg.run([loop_body(lp[0])], env_, 0)
-                na, nb = env_[pa_['id']], env_[pb_['id']]
-                # integer promotion: the remainder is formed in int for narrow types, then narrowed back
-                cands = []
-                for W_ in sorted({wi_[0], 32, 64}):
-                    if W_ < wi_[0]:
-                        continue
-                    sa = Xg.cast(sym_bv('a', wi_[0], wi_[1]), {8: 'signed char', 16: 'short', 32: 'int', 64: 'long'}[W_] if (wi_[1] or W_ > wi_[0]) else {8: 'unsigned char', 16: 'unsigned short', 32: 'unsigned int', 64: 'unsigned long'}[W_])
-                    sb = Xg.cast(sym_bv('b', wi_[0], wi_[1]), {8: 'signed char', 16: 'short', 32: 'int', 64: 'long'}[W_] if (wi_[1] or W_ > wi_[0]) else {8: 'unsigned char', 16: 'unsigned short', 32: 'unsigned int', 64: 'unsigned long'}[W_])
-                    cands.append(u_op('mod', sa.b, sb.b, W_, commutative=False)[:wi_[0]])
-                rets_ = [r_ for r_ in walk(body) if r_.get('kind') == 'ReturnStmt' and kids(r_)]
-                final_ok = bool(rets_) and rets_[-1].get('_off', 0) > lp[0].get('_off', 0) and N(kids(rets_[-1])[0]) == 'a' and rets_[-1].get('_p') is body
-                early_ok = True
-                for r_ in rets_[:-1]:
-                    # an early exit may only state gcd(a, 0) = a or gcd(0, b) = b
-                    fs_ = {(N(x_[0]), x_[1], N(x_[2])) for x_ in [relation(n_, p_) for n_, p_ in atoms(path_facts(r_))] if x_}
-                    v_ = N(kids(r_)[0])
-                    early_ok = early_ok and r_.get('_off', 0) < lp[0].get('_off', 0) and ((v_ == 'a' and (('b', '==', '0') in fs_ or ('0', '==', 'b') in fs_)) or (v_ == 'b' and (('a', '==', '0') in fs_ or ('0', '==', 'a') in fs_)))
-                ok = list(na.b[:wi_[0]]) == list(sym_bv('b', wi_[0], wi_[1]).b) and list(nb.b[:wi_[0]]) in cands and final_ok and early_ok
-                why = 'one turn of the gcd loop does not map (a, b) to (b, a mod b), or the result is not a'
-            except Unsupported as e_:
-                ctx.undecided(R, 'gcd<%s>|euclid' % t, f, 'the gcd loop body is outside the supported statement forms (%s)' % e_)
-                continue
-        ctx.check(ok, R, 'gcd<%s>|euclid' % t, f, 'while (b) { (a, b) = (b, a mod b) } return a', why)
+                W = CLZ[call_name(cl[0])]
+                s = strip(e)
+                # (C - clz(cast v)) possibly converted to IntT
+                while s.get('kind') in ('CStyleCastExpr', 'CXXStaticCastExpr', 'CXXFunctionalCastExpr', 'ImplicitCastExpr') and s.get('inner'):
+                    s = strip(s['inner'][0])
+                ok = s.get('kind') == 'BinaryOperator' and s.get('opcode') == '-' and int_value(s['inner'][0]) is not None and any(x is cl[0] for x in walk(s['inner'][1]))
+                if ok:
+                    C = int_value(s['inner'][0])
+                    arg = strip(call_args(cl[0])[0], casts=False)
+                    at = dtype(arg)
+                    ai = int_type_info(at)
+                    src = arg
+                    while src.get('kind') in ('CStyleCastExpr', 'CXXStaticCastExpr', 'CXXFunctionalCastExpr', 'ImplicitCastExpr', 'ParenExpr') and src.get('inner'):
+                        src = src['inner'][0]
+                    is_v = (ref_decl(src) or {}).get('id') == params_of(f)[0]['id']
+                    widen_ok = ai is not None and ai[0] == W and not ai[1] and W >= bits
+                    ok = C == W - 1 and is_v and widen_ok
+                    why = 'log2i computes %d - %s(%s): the builtin counts leading zeros of a %d-bit operand, so the constant must be %d%s' % (C, call_name(cl[0]), at, W, W - 1, '' if widen_ok else ' and the %d-bit argument must be widened to it as unsigned' % bits)
+            ctx.check(ok, R, lab + '|width-agreement', f, 'result = %s - clz over the builtin\'s own width' % (CLZ[call_name(cl[0])] - 1 if cl else '?'), why)
+        gs = [f for f in w.funcs('phosg::gcd') if targs(f)]
+        ctx.require(len(gs) == 8, 'gcd instantiations: %d' % len(gs))
+        for f in gs:
+            t = targs(f)[0]
+            body = body_of(f)
+            lp = [x for x in walk(body) if x.get('kind') == 'WhileStmt']
+            ok = len(lp) == 1 and N(while_parts(lp[0])[0]) in ('(0 != b)', '(b != 0)', 'b')
+            why = 'gcd is not a `while (b != 0)` loop'
+            if ok:
+                # one turn of the loop, executed abstractly from symbolic (a, b): it must produce (b, a mod b)
+                pa_, pb_ = params_of(f)[0], params_of(f)[1]
+                wi_ = width_of_type(dtype(pa_)) or (64, False)
+                Xg = BVExec(w)
+                env_ = {pa_['id']: sym_bv('a', wi_[0], wi_[1]), pb_['id']: sym_bv('b', wi_[0], wi_[1])}
+                try:
+                    Xg.run([loop_body(lp[0])], env_, 0)
+                    na, nb = env_[pa_['id']], env_[pb_['id']]
+                    # integer promotion: the remainder is formed in int for narrow types, then narrowed back
+                    cands = []
+                    for W_ in sorted({wi_[0], 32, 64}):
+                        if W_ < wi_[0]:
+                            continue
+                        sa = Xg.cast(sym_bv('a', wi_[0], wi_[1]), {8: 'signed char', 16: 'short', 32: 'int', 64: 'long'}[W_] if (wi_[1] or W_ > wi_[0]) else {8: 'unsigned char', 16: 'unsigned short', 32: 'unsigned int', 64: 'unsigned long'}[W_])
+                        sb = Xg.cast(sym_bv('b', wi_[0], wi_[1]), {8: 'signed char', 16: 'short', 32: 'int', 64: 'long'}[W_] if (wi_[1] or W_ > wi_[0]) else {8: 'unsigned char', 16: 'unsigned short', 32: 'unsigned int', 64: 'unsigned long'}[W_])
+                        cands.append(u_op('mod', sa.b, sb.b, W_, commutative=False)[:wi_[0]])
+                    rets_ = [r_ for r_ in walk(body) if r_.get('kind') == 'ReturnStmt' and kids(r_)]
+                    final_ok = bool(rets_) and rets_[-1].get('_off', 0) > lp[0].get('_off', 0) and N(kids(rets_[-1])[0]) == 'a' and rets_[-1].get('_p') is body
+                    early_ok = True
+                    for r_ in rets_[:-1]:
+                        # an early exit may only state gcd(a, 0) = a or gcd(0, b) = b
+                        fs_ = {(N(x_[0]), x_[1], N(x_[2])) for x_ in [relation(n_, p_) for n_, p_ in atoms(path_facts(r_))] if x_}
+                        v_ = N(kids(r_)[0])
+                        early_ok = early_ok and r_.get('_off', 0) < lp[0].get('_off', 0) and ((v_ == 'a' and (('b', '==', '0') in fs_ or ('0', '==', 'b') in fs_)) or (v_ == 'b' and (('a', '==', '0') in fs_ or ('0', '==', 'a') in fs_)))
+                    ok = list(na.b[:wi_[0]]) == list(sym_bv('b', wi_[0], wi_[1]).b) and list(nb.b[:wi_[0]]) in cands and final_ok and early_ok
+                    why = 'one turn of the gcd loop does not map (a, b) to (b, a mod b), or the result is not a'
+                except Unsupported as e_:
+                    ctx.undecided(R, 'gcd<%s>|euclid' % t, f, 'the gcd loop body is outside the supported statement forms (%s)' % e_)
+                    continue
+            ctx.check(ok, R, 'gcd<%s>|euclid' % t, f, 'while (b) { (a, b) = (b, a mod b) } return a', why)
 
     # ---------------- R2
-    R = 'C20-R2'
-    for n in (2, 3, 4):
-        comps = COMP[n]
-        cls = 'phosg::Vector%d<long>' % n
-        ms = {}
-        for f in w.functions:
-            if w.qualname(f).startswith(cls + '::') and not is_dependent_pattern(f, w):
-                ms.setdefault(f['name'], []).append(f)
-        ctx.require(len(ms) >= 15, '%s members not found (%d)' % (cls, len(ms)))
-        lab0 = 'Vector%d' % n
-        for nm, tok in BIN_TOK.items():
-            for f in ms.get(nm, []):
-                ps = params_of(f)
-                if not ps:
-                    # unary minus
+    with ctx.section('C20-R2', 'Vector-inl.hh'):
+        R = 'C20-R2'
+        for n in (2, 3, 4):
+            comps = COMP[n]
+            cls = 'phosg::Vector%d<long>' % n
+            ms = {}
+            for f in w.functions:
+                if w.qualname(f).startswith(cls + '::') and not is_dependent_pattern(f, w):
+                    ms.setdefault(f['name'], []).append(f)
+            ctx.require(len(ms) >= 15, '%s members not found (%d)' % (cls, len(ms)))
+            lab0 = 'Vector%d' % n
+            for nm, tok in BIN_TOK.items():
+                for f in ms.get(nm, []):
+                    ps = params_of(f)
+                    if not ps:
+                        # unary minus
+                        a = ctor_args(ret_expr(f))
+                        ok = a is not None and [N(x) for x in a] == ['-this.%s' % c for c in comps]
+                        ctx.check(ok, R, '%s|unary-|components' % lab0, f, 'negates each component', 'unary minus is %s' % ([N(x) for x in a] if a else None))
+                        continue
+                    vec = 'Vector' in (qtype(ps[0]) or '')
                     a = ctor_args(ret_expr(f))
-                    ok = a is not None and [N(x) for x in a] == ['-this.%s' % c for c in comps]
-                    ctx.check(ok, R, '%s|unary-|components' % lab0, f, 'negates each component', 'unary minus is %s' % ([N(x) for x in a] if a else None))
-                    continue
-                vec = 'Vector' in (qtype(ps[0]) or '')
-                a = ctor_args(ret_expr(f))
-                want = ['(this.%s %s other%s)' % (c, tok, ('.' + c) if vec else '') for c in comps]
-                got = [N(x) for x in a] if a else None
-                if got is not None and tok in ('+', '*'):
-                    want = ['(' + (' %s ' % tok).join(sorted(['this.%s' % c, 'other' + (('.' + c) if vec else '')])) + ')' for c in comps]
-                ctx.fn('%s::%s' % (lab0, nm))
-                ctx.check(got == want, R, '%s|%s(%s)|components' % (lab0, nm, 'vector' if vec else 'scalar'), f, 'component c = this.c %s other(.c)' % tok, '%s is not component-wise with `%s`: %s' % (nm, tok, got))
-        for nm, tok in CMP_TOK.items():
-            for f in ms.get(nm, []):
-                ps = params_of(f)
-                vec = 'Vector' in (qtype(ps[0]) or '')
-                st = [N(s) for s in stmts_of(body_of(f)) if s.get('kind') != 'ReturnStmt']
-                want = ['(this.%s %s other%s)' % (c, tok, ('.' + c) if vec else '') for c in comps]
-                ctx.check(st == want, R, '%s|%s(%s)|components' % (lab0, nm, 'vector' if vec else 'scalar'), f, 'this.c %s other(.c) for each component' % tok, '%s is not component-wise: %s' % (nm, st))
-        eq = ms.get('operator==', [None])[0]
-        if eq is not None:
-            e = N(ret_expr(eq))
-            want = '(' + ' && '.join('(other.%s == this.%s)' % (c, c) for c in comps) + ')'
-            ctx.check(e == want, R, lab0 + '|operator==|all-components', eq, 'equal iff every component is equal', 'operator== is %s' % e)
-        lt = ms.get('operator<', [None])[0]
-        if lt is not None:
-            seq = []
-            for s in stmts_of(body_of(lt)):
-                if s.get('kind') == 'IfStmt':
-                    r = [x for x in walk(if_parts(s)[1]) if x.get('kind') == 'ReturnStmt']
-                    seq.append((N(if_parts(s)[0]), int_value(kids(r[0])[0]) if r else None))
-                elif s.get('kind') == 'ReturnStmt':
-                    seq.append((N(kids(s)[0]), 'ret'))
-            want = []
-            for c in comps[:-1]:
-                want.append(('(this.%s < other.%s)' % (c, c), 1))
-                want.append(('(other.%s < this.%s)' % (c, c), 0))
-            want.append(('(this.%s < other.%s)' % (comps[-1], comps[-1]), 'ret'))
-            # operator< touches the components only through comparisons, so it is decided exhaustively over
-            # the 3^n orderings of the component pairs (each pair <, = or >): the result must be the
-            # lexicographic one.  Any shape (ladder, shared helper, loop over at(i)) is accepted.
-            import itertools
-            from peval import PEval, Vec, Undecided, Fault
-            PEo = PEval([w])
-            bad_o = None
-            undec = None
-            for combo in itertools.product('<=>', repeat=len(comps)):
-                PEo.ordering = dict(enumerate(combo))
-                frame_this = Vec('a', list(comps))
-                try:
-                    frame = {params_of(lt)[0]['id']: Vec('b', list(comps)), '__this__': frame_this}
+                    want = ['(this.%s %s other%s)' % (c, tok, ('.' + c) if vec else '') for c in comps]
+                    got = [N(x) for x in a] if a else None
+                    if got is not None and tok in ('+', '*'):
+                        want = ['(' + (' %s ' % tok).join(sorted(['this.%s' % c, 'other' + (('.' + c) if vec else '')])) + ')' for c in comps]
+                    ctx.fn('%s::%s' % (lab0, nm))
+                    ctx.check(got == want, R, '%s|%s(%s)|components' % (lab0, nm, 'vector' if vec else 'scalar'), f, 'component c = this.c %s other(.c)' % tok, '%s is not component-wise with `%s`: %s' % (nm, tok, got))
+            for nm, tok in CMP_TOK.items():
+                for f in ms.get(nm, []):
+                    ps = params_of(f)
+                    vec = 'Vector' in (qtype(ps[0]) or '')
+                    st = [N(s) for s in stmts_of(body_of(f)) if s.get('kind') != 'ReturnStmt']
+                    want = ['(this.%s %s other%s)' % (c, tok, ('.' + c) if vec else '') for c in comps]
+                    ctx.check(st == want, R, '%s|%s(%s)|components' % (lab0, nm, 'vector' if vec else 'scalar'), f, 'this.c %s other(.c) for each component' % tok, '%s is not component-wise: %s' % (nm, st))
+            eq = ms.get('operator==', [None])[0]
+            if eq is not None:
+                e = N(ret_expr(eq))
+                want = '(' + ' && '.join('(other.%s == this.%s)' % (c, c) for c in comps) + ')'
+                ctx.check(e == want, R, lab0 + '|operator==|all-components', eq, 'equal iff every component is equal', 'operator== is %s' % e)
+            lt = ms.get('operator<', [None])[0]
+            if lt is not None:
+                seq = []
+                for s in stmts_of(body_of(lt)):
+                    if s.get('kind') == 'IfStmt':
+                        r = [x for x in walk(if_parts(s)[1]) if x.get('kind') == 'ReturnStmt']
+                        seq.append((N(if_parts(s)[0]), int_value(kids(r[0])[0]) if r else None))
+                    elif s.get('kind') == 'ReturnStmt':
+                        seq.append((N(kids(s)[0]), 'ret'))
+                want = []
+                for c in comps[:-1]:
+                    want.append(('(this.%s < other.%s)' % (c, c), 1))
+                    want.append(('(other.%s < this.%s)' % (c, c), 0))
+                want.append(('(this.%s < other.%s)' % (comps[-1], comps[-1]), 'ret'))
+                # operator< touches the components only through comparisons, so it is decided exhaustively over
+                # the 3^n orderings of the component pairs (each pair <, = or >): the result must be the
+                # lexicographic one.  Any shape (ladder, shared helper, loop over at(i)) is accepted.
+                import itertools
+                from peval import PEval, Vec, Undecided, Fault
+                PEo = PEval([w])
+                bad_o = None
+                undec = None
+                for combo in itertools.product('<=>', repeat=len(comps)):
+                    PEo.ordering = dict(enumerate(combo))
+                    frame_this = Vec('a', list(comps))
                     try:
-                        PEo.run([body_of(lt)], frame, 1)
-                        got = None
-                    except Exception as e_:
-                        if e_.__class__.__name__ != '_Return':
-                            raise
-                        got = e_.v
-                except Undecided as e_:
-                    undec = str(e_)
-                    break
-                except Fault as e_:
-                    bad_o = (combo, 'faults: %s' % e_)
-                    break
-                first = next((o for o in combo if o != '='), '=')
-                want_o = 1 if first == '<' else 0
-                if got != want_o:
-                    bad_o = (combo, 'returns %s' % got)
-                    break
-            if undec is not None:
-                ctx.undecided(R, lab0 + '|operator<|lexicographic', lt, 'operator< could not be folded over the component orderings (%s)' % undec)
-            else:
-                ctx.check(bad_o is None, R, lab0 + '|operator<|lexicographic', lt, 'lexicographic over %s on all %d component orderings' % (comps, 3 ** len(comps)),
-                          'operator< is not the strict lexicographic order (it must be a strict weak order consistent with ==): with components %s it %s' % (', '.join('%s: this %s other' % (c_, o_) for c_, o_ in zip(comps, bad_o[0])) if bad_o else '', bad_o[1] if bad_o else ''))
-        for nm, a_, b_ in (('dot', 'this', 'other'), ('norm2', 'this', 'this')):
-            f = ms.get(nm, [None])[0]
-            if f is not None:
-                e = N(ret_expr(f))
-                terms = sorted('(' + ' * '.join(sorted(['%s.%s' % (a_, c), '%s.%s' % (b_, c)])) + ')' for c in comps)
-                ctx.check(e == '(' + ' + '.join(terms) + ')', R, '%s|%s|sum-of-products' % (lab0, nm), f, 'sum over components of %s.c * %s.c' % (a_, b_), '%s is %s' % (nm, e))
-        atf = ms.get('at', [None])[0]
-        at_eval = None
-        if atf is not None:
-            # at(i) evaluated (E-TABLE) for every component index: it must yield the i-th component
-            from peval import PEval as _PEa, Vec as _Vec, Ord as _Ord, Undecided as _PUa, Fault as _PFa
-            rec_ = w.record_of(atf)
-            order_ = [c['name'] for c in sorted([c for c in walk(rec_) if c.get('kind') == 'FieldDecl' and c.get('name') in comps], key=lambda c: c.get('_off', 0))]
-            try:
-                got_ = []
-                for i_ in range(n):
-                    r_ = _PEa([w]).call_with(atf, [i_], this=_Vec('this', list(order_)))
-                    got_.append(order_[r_.idx] if isinstance(r_, _Ord) else repr(r_))
-                at_eval = (got_ == list(comps) and order_ == list(comps), got_)
-            except (_PUa, _PFa) as e_:
-                at_eval = None
-        if atf is not None and at_eval is not None:
-            ctx.check(at_eval[0], R, lab0 + '|at|array-view', atf, 'at(i) yields component i for i = 0..%d (%s)' % (n - 1, ', '.join(comps)),
-                      'at(i) yields %s for i = 0..%d; the components are %s' % (at_eval[1], n - 1, list(comps)))
-        elif atf is not None:
-            e = strip(ret_expr(atf))
-            ok = e.get('kind') == 'ArraySubscriptExpr' and N(e['inner'][1]) == params_of(atf)[0]['name'] and any(x.get('kind') == 'CXXReinterpretCastExpr' for x in walk(e['inner'][0])) and any(x.get('kind') == 'CXXThisExpr' for x in walk(e['inner'][0]))
-            rec = w.record_of(atf)
-            flds = [c for c in walk(rec) if c.get('kind') == 'FieldDecl' and c.get('name') in comps]
-            order = [c['name'] for c in sorted(flds, key=lambda c: c.get('_off', 0))]
-            ctx.check(ok and order == comps, R, lab0 + '|at|array-view', atf, 'at(i) views the object as T[%d] with members declared in the order %s' % (n, comps), 'at(i) or the member order changed (%s)' % order)
-    cr = [f for f in w.functions if w.qualname(f).startswith('phosg::Vector3<') and f['name'] == 'cross' and not is_dependent_pattern(f, w)]
-    ctx.require(len(cr) >= 2, 'Vector3::cross instantiations not found')
-    for f in cr:
-        a = ctor_args(ret_expr(f))
-        got = [N(x) for x in a] if a else None
-        want = ['((other.z * this.y) - (other.y * this.z))', '((other.x * this.z) - (other.z * this.x))', '((other.y * this.x) - (other.x * this.y))']
-        ctx.check(got == want, R, 'Vector3<%s>|cross|cyclic' % w.qualname(f).split('<')[1].split('>')[0], f, '(y*oz - z*oy, z*ox - x*oz, x*oy - y*ox)', 'cross product components are %s' % got)
+                        frame = {params_of(lt)[0]['id']: Vec('b', list(comps)), '__this__': frame_this}
+                        try:
+                            PEo.run([body_of(lt)], frame, 1)
+                            got = None
+                        except Exception as e_:
+                            if e_.__class__.__name__ != '_Return':
+                                raise
+                            got = e_.v
+                    except Undecided as e_:
+                        undec = str(e_)
+                        break
+                    except Fault as e_:
+                        bad_o = (combo, 'faults: %s' % e_)
+                        break
+                    first = next((o for o in combo if o != '='), '=')
+                    want_o = 1 if first == '<' else 0
+                    if got != want_o:
+                        bad_o = (combo, 'returns %s' % got)
+                        break
+                if undec is not None:
+                    ctx.undecided(R, lab0 + '|operator<|lexicographic', lt, 'operator< could not be folded over the component orderings (%s)' % undec)
+                else:
+                    ctx.check(bad_o is None, R, lab0 + '|operator<|lexicographic', lt, 'lexicographic over %s on all %d component orderings' % (comps, 3 ** len(comps)),
+                              'operator< is not the strict lexicographic order (it must be a strict weak order consistent with ==): with components %s it %s' % (', '.join('%s: this %s other' % (c_, o_) for c_, o_ in zip(comps, bad_o[0])) if bad_o else '', bad_o[1] if bad_o else ''))
+            for nm, a_, b_ in (('dot', 'this', 'other'), ('norm2', 'this', 'this')):
+                f = ms.get(nm, [None])[0]
+                if f is not None:
+                    e = N(ret_expr(f))
+                    terms = sorted('(' + ' * '.join(sorted(['%s.%s' % (a_, c), '%s.%s' % (b_, c)])) + ')' for c in comps)
+                    ctx.check(e == '(' + ' + '.join(terms) + ')', R, '%s|%s|sum-of-products' % (lab0, nm), f, 'sum over components of %s.c * %s.c' % (a_, b_), '%s is %s' % (nm, e))
+            atf = ms.get('at', [None])[0]
+            at_eval = None
+            if atf is not None:
+                # at(i) evaluated (E-TABLE) for every component index: it must yield the i-th component
+                from peval import PEval as _PEa, Vec as _Vec, Ord as _Ord, Undecided as _PUa, Fault as _PFa
+                rec_ = w.record_of(atf)
+                order_ = [c['name'] for c in sorted([c for c in walk(rec_) if c.get('kind') == 'FieldDecl' and c.get('name') in comps], key=lambda c: c.get('_off', 0))]
+                try:
+                    got_ = []
+                    for i_ in range(n):
+                        r_ = _PEa([w]).call_with(atf, [i_], this=_Vec('this', list(order_)))
+                        got_.append(order_[r_.idx] if isinstance(r_, _Ord) else repr(r_))
+                    at_eval = (got_ == list(comps) and order_ == list(comps), got_)
+                except (_PUa, _PFa) as e_:
+                    at_eval = None
+            if atf is not None and at_eval is not None:
+                ctx.check(at_eval[0], R, lab0 + '|at|array-view', atf, 'at(i) yields component i for i = 0..%d (%s)' % (n - 1, ', '.join(comps)),
+                          'at(i) yields %s for i = 0..%d; the components are %s' % (at_eval[1], n - 1, list(comps)))
+            elif atf is not None:
+                e = strip(ret_expr(atf))
+                ok = e.get('kind') == 'ArraySubscriptExpr' and N(e['inner'][1]) == params_of(atf)[0]['name'] and any(x.get('kind') == 'CXXReinterpretCastExpr' for x in walk(e['inner'][0])) and any(x.get('kind') == 'CXXThisExpr' for x in walk(e['inner'][0]))
+                rec = w.record_of(atf)
+                flds = [c for c in walk(rec) if c.get('kind') == 'FieldDecl' and c.get('name') in comps]
+                order = [c['name'] for c in sorted(flds, key=lambda c: c.get('_off', 0))]
+                ctx.check(ok and order == comps, R, lab0 + '|at|array-view', atf, 'at(i) views the object as T[%d] with members declared in the order %s' % (n, comps), 'at(i) or the member order changed (%s)' % order)
+        cr = [f for f in w.functions if w.qualname(f).startswith('phosg::Vector3<') and f['name'] == 'cross' and not is_dependent_pattern(f, w)]
+        ctx.require(len(cr) >= 2, 'Vector3::cross instantiations not found')
+        for f in cr:
+            a = ctor_args(ret_expr(f))
+            got = [N(x) for x in a] if a else None
+            want = ['((other.z * this.y) - (other.y * this.z))', '((other.x * this.z) - (other.z * this.x))', '((other.y * this.x) - (other.x * this.y))']
+            ctx.check(got == want, R, 'Vector3<%s>|cross|cyclic' % w.qualname(f).split('<')[1].split('>')[0], f, '(y*oz - z*oy, z*ox - x*oz, x*oy - y*ox)', 'cross product components are %s' % got)
 
-    # Matrix4 element-wise operators
-    mms = {}
-    for f in w.functions:
-        if w.qualname(f).startswith('phosg::Matrix4<long>::') and not is_dependent_pattern(f, w):
-            mms.setdefault(f['name'], []).append(f)
-    for nm, tok in list(BIN_TOK.items()) + list(CMP_TOK.items()):
-        for f in mms.get(nm, []):
-            ps = params_of(f)
-            if not ps or 'Vector4' in (qtype(ps[0]) or ''):
-                continue
-            mat = 'Matrix4' in (qtype(ps[0]) or '')
-            if mat and nm in ('operator*', 'operator*='):
-                continue   # the matrix product is judged by R3
-            lp = [x for x in walk(body_of(f)) if x.get('kind') == 'ForStmt']
-            st = [N(s_) for x in lp for s_ in stmts_of(loop_body(x))]
-            o = 'other.v[z]' if mat else 'other'
-            if nm in BIN_TOK:
-                rhs = '(' + (' %s ' % tok).join(sorted(['this.v[z]', o])) + ')' if tok in ('+', '*') else '(this.v[z] %s %s)' % (tok, o)
-                want = ['(res.v[z] = %s)' % rhs]
-            else:
-                want = ['(this.v[z] %s %s)' % (tok, o)]
-            full = len(lp) == 1 and N(for_parts(lp[0])[2]) == '(z < 16)'
-            ctx.check(st == want and full, R, 'Matrix4|%s(%s)|elementwise' % (nm, 'matrix' if mat else 'scalar'), f, 'element z = this.v[z] %s other over all 16 elements' % tok, '%s is not element-wise over all 16 entries: %s' % (nm, st))
-    # ---------------- R3
-    R = 'C20-R3'
-    for T in ('long', 'double'):
-        cls = 'phosg::Matrix4<%s>' % T
-        ms = {}
+        # Matrix4 element-wise operators
+        mms = {}
         for f in w.functions:
-            if w.qualname(f).startswith(cls + '::') and not is_dependent_pattern(f, w):
-                ms.setdefault(f['name'], []).append(f)
-        mv = [f for f in ms.get('operator*', []) if 'Vector4' in (qtype(params_of(f)[0]) or '')]
-        mm = [f for f in ms.get('operator*', []) if 'Matrix4' in (qtype(params_of(f)[0]) or '')]
-        ctx.require(len(mv) == 1 and len(mm) == 1, '%s products not found' % cls)
-        a = ctor_args(ret_expr(mv[0]))
-        okv = a is not None and len(a) == 4
-        if okv:
-            for i, x in enumerate(a):
-                terms = sorted('(' + ' * '.join(sorted(['other.%s' % c, 'this.m[%d][%d]' % (j, i)])) + ')' for j, c in enumerate(COMP[4]))
-                okv = okv and N(x) == '(' + ' + '.join(terms) + ')'
-        ctx.check(okv, R, 'Matrix4<%s>|M*v|index-convention' % T, mv[0], 'row i = sum_j m[j][i] * v_j', 'M*v does not use m[j][i] as the coefficient of v_j in row i')
-        acc = [x for x in walk(body_of(mm[0])) if x.get('kind') == 'CompoundAssignOperator' and x.get('opcode') == '+=']
-        st = [x for x in walk(body_of(mm[0])) if x.get('kind') == 'BinaryOperator' and x.get('opcode') == '=' and N(x['inner'][0]).startswith('res.m[')]
-        okm = len(acc) == 1 and N(acc[0]['inner'][1]) in ('(other.m[x][z] * this.m[z][y])',) and len(st) == 1 and N(st[0]['inner'][0]) == 'res.m[x][y]'
-        loops = [lp for lp in walk(body_of(mm[0])) if lp.get('kind') == 'ForStmt']
-        okm = okm and len(loops) == 3 and all(N(for_parts(lp)[2]).endswith('< 4)') and int_value(kids(next(v for v in walk(for_parts(lp)[0]) if v.get('kind') == 'VarDecl'))[-1]) == 0 for lp in loops)
-        ctx.check(okm, R, 'Matrix4<%s>|M*N|index-convention' % T, mm[0], 'res.m[x][y] = sum_z this.m[z][y] * other.m[x][z] (same convention as M*v, so (AB)v = A(Bv))', 'M*N index pattern changed: %s' % [N(x['inner'][1]) for x in acc])
-        # M *= N: the product is formed apart from *this (so that m *= m, where `other` IS *this,
-        # reads only original entries), then assigned
-        mme = [f for f in ms.get('operator*=', []) if 'Matrix4' in (qtype(params_of(f)[0]) or '')]
-        ctx.require(len(mme) == 1, '%s::operator*=(const Matrix4&) not found' % cls)
-        fb = body_of(mme[0])
-        delegates = [c for c in walk(fb) if c.get('kind') == 'CXXOperatorCallExpr' and call_name(c) == 'operator*' and (callee_decl(c, w) or {}).get('mangledName') == mm[0].get('mangledName')]
-        writes = [x for x in walk(fb) if x.get('kind') in ('BinaryOperator', 'CompoundAssignOperator') and x.get('opcode', '').endswith('=') and x.get('opcode') not in ('==', '!=', '<=', '>=') and N(x['inner'][0]).startswith('this.m[')]
-        reads_other = [x for x in walk(fb) if x.get('kind') == 'ArraySubscriptExpr' and N(x).startswith('other.m[') and N(x).count('[') == 2]
-        hazard = None
-        for wr in writes:
-            for rd_ in reads_other:
-                if N(rd_) != N(wr['inner'][0]).replace('this.', 'other.'):
-                    hazard = (wr, rd_)
-        okd = (len(delegates) == 1 and not writes) or (not delegates and hazard is None and bool(writes))
-        ctx.check(okd and hazard is None, R, 'Matrix4<%s>|M*=N|no-aliasing-hazard' % T, hazard[0] if hazard else mme[0], 'the product is computed by operator* into a separate matrix and then assigned',
-                  'operator*= writes `%s` while `%s` is still to be read: when the argument is the matrix itself (m *= m) later rows are computed from already overwritten entries' % ((N(hazard[0]['inner'][0]), N(hazard[1])) if hazard else ('?', '?')))
-        tr = ms.get('transposition', [None])[0]
-        if tr is not None:
-            st = [N(x) for x in walk(body_of(tr)) if x.get('kind') == 'BinaryOperator' and x.get('opcode') == '=']
-            ctx.check(st == ['(res.m[y][x] = this.m[x][y])'], R, 'Matrix4<%s>|transposition' % T, tr, 'res.m[y][x] = m[x][y]', 'transposition is %s' % st)
-        inv = ms.get('invert', [None])[0]
-        if inv is not None:
-            ctx.fn('Matrix4<%s>::invert' % T)
-            inner = [lp for lp in walk(body_of(inv)) if lp.get('kind') == 'ForStmt' and any(x.get('kind') == 'CompoundAssignOperator' for x in stmts_of(loop_body(lp)) if True) and
-                     all(strip(s).get('kind') == 'CompoundAssignOperator' for s in stmts_of(loop_body(lp)))]
-            ctx.require(len(inner) == 2, 'invert: row-operation loops not found (%d)' % len(inner))
-            for i, lp in enumerate(inner):
-                init, cv, cond, inc, lbody = for_parts(lp)
-                vd = next(v for v in walk(init) if v.get('kind') == 'VarDecl')
-                full = int_value(kids(vd)[-1]) == 0 and N(cond) == '(%s < 4)' % vd['name'] and N(inc) == '(%s++)' % vd['name']
-                st = [N(s) for s in stmts_of(lbody)]
-                paired = len(st) == 2 and st[0].replace('left.', 'this.') == st[1] and st[0] != st[1]
-                ctx.check(full and paired, R, 'Matrix4<%s>|invert|row-op#%d' % (T, i), lp, 'the row operation is applied to both matrices over all four columns',
-                          'a row operation in invert() %s: %s' % ('does not cover all four columns (the accumulating inverse is not zero left of the pivot)' if not full else 'is not applied identically to both matrices', st))
-            piv = [x for x in walk(body_of(inv)) if x.get('kind') == 'IfStmt' and 'row_divisor' in N(if_parts(x)[0]) and any(t.get('kind') == 'CXXThrowExpr' for t in walk(if_parts(x)[1]))]
-            ctx.check(len(piv) == 1, R, 'Matrix4<%s>|invert|zero-pivot' % T, inv, 'a zero pivot throws', 'zero-pivot handling changed')
+            if w.qualname(f).startswith('phosg::Matrix4<long>::') and not is_dependent_pattern(f, w):
+                mms.setdefault(f['name'], []).append(f)
+        for nm, tok in list(BIN_TOK.items()) + list(CMP_TOK.items()):
+            for f in mms.get(nm, []):
+                ps = params_of(f)
+                if not ps or 'Vector4' in (qtype(ps[0]) or ''):
+                    continue
+                mat = 'Matrix4' in (qtype(ps[0]) or '')
+                if mat and nm in ('operator*', 'operator*='):
+                    continue   # the matrix product is judged by R3
+                lp = [x for x in walk(body_of(f)) if x.get('kind') == 'ForStmt']
+                st = [N(s_) for x in lp for s_ in stmts_of(loop_body(x))]
+                o = 'other.v[z]' if mat else 'other'
+                if nm in BIN_TOK:
+                    rhs = '(' + (' %s ' % tok).join(sorted(['this.v[z]', o])) + ')' if tok in ('+', '*') else '(this.v[z] %s %s)' % (tok, o)
+                    want = ['(res.v[z] = %s)' % rhs]
+                else:
+                    want = ['(this.v[z] %s %s)' % (tok, o)]
+                full = len(lp) == 1 and N(for_parts(lp[0])[2]) == '(z < 16)'
+                ctx.check(st == want and full, R, 'Matrix4|%s(%s)|elementwise' % (nm, 'matrix' if mat else 'scalar'), f, 'element z = this.v[z] %s other over all 16 elements' % tok, '%s is not element-wise over all 16 entries: %s' % (nm, st))
+    # ---------------- R3
+    with ctx.section('C20-R3', 'Vector-inl.hh'):
+        R = 'C20-R3'
+        for T in ('long', 'double'):
+            cls = 'phosg::Matrix4<%s>' % T
+            ms = {}
+            for f in w.functions:
+                if w.qualname(f).startswith(cls + '::') and not is_dependent_pattern(f, w):
+                    ms.setdefault(f['name'], []).append(f)
+            mv = [f for f in ms.get('operator*', []) if 'Vector4' in (qtype(params_of(f)[0]) or '')]
+            mm = [f for f in ms.get('operator*', []) if 'Matrix4' in (qtype(params_of(f)[0]) or '')]
+            ctx.require(len(mv) == 1 and len(mm) == 1, '%s products not found' % cls)
+            a = ctor_args(ret_expr(mv[0]))
+            okv = a is not None and len(a) == 4
+            if okv:
+                for i, x in enumerate(a):
+                    terms = sorted('(' + ' * '.join(sorted(['other.%s' % c, 'this.m[%d][%d]' % (j, i)])) + ')' for j, c in enumerate(COMP[4]))
+                    okv = okv and N(x) == '(' + ' + '.join(terms) + ')'
+            ctx.check(okv, R, 'Matrix4<%s>|M*v|index-convention' % T, mv[0], 'row i = sum_j m[j][i] * v_j', 'M*v does not use m[j][i] as the coefficient of v_j in row i')
+            acc = [x for x in walk(body_of(mm[0])) if x.get('kind') == 'CompoundAssignOperator' and x.get('opcode') == '+=']
+            st = [x for x in walk(body_of(mm[0])) if x.get('kind') == 'BinaryOperator' and x.get('opcode') == '=' and N(x['inner'][0]).startswith('res.m[')]
+            okm = len(acc) == 1 and N(acc[0]['inner'][1]) in ('(other.m[x][z] * this.m[z][y])',) and len(st) == 1 and N(st[0]['inner'][0]) == 'res.m[x][y]'
+            loops = [lp for lp in walk(body_of(mm[0])) if lp.get('kind') == 'ForStmt']
+            okm = okm and len(loops) == 3 and all(N(for_parts(lp)[2]).endswith('< 4)') and int_value(kids(next(v for v in walk(for_parts(lp)[0]) if v.get('kind') == 'VarDecl'))[-1]) == 0 for lp in loops)
+            ctx.check(okm, R, 'Matrix4<%s>|M*N|index-convention' % T, mm[0], 'res.m[x][y] = sum_z this.m[z][y] * other.m[x][z] (same convention as M*v, so (AB)v = A(Bv))', 'M*N index pattern changed: %s' % [N(x['inner'][1]) for x in acc])
+            # M *= N: the product is formed apart from *this (so that m *= m, where `other` IS *this,
+            # reads only original entries), then assigned
+            mme = [f for f in ms.get('operator*=', []) if 'Matrix4' in (qtype(params_of(f)[0]) or '')]
+            ctx.require(len(mme) == 1, '%s::operator*=(const Matrix4&) not found' % cls)
+            fb = body_of(mme[0])
+            delegates = [c for c in walk(fb) if c.get('kind') == 'CXXOperatorCallExpr' and call_name(c) == 'operator*' and (callee_decl(c, w) or {}).get('mangledName') == mm[0].get('mangledName')]
+            writes = [x for x in walk(fb) if x.get('kind') in ('BinaryOperator', 'CompoundAssignOperator') and x.get('opcode', '').endswith('=') and x.get('opcode') not in ('==', '!=', '<=', '>=') and N(x['inner'][0]).startswith('this.m[')]
+            reads_other = [x for x in walk(fb) if x.get('kind') == 'ArraySubscriptExpr' and N(x).startswith('other.m[') and N(x).count('[') == 2]
+            hazard = None
+            for wr in writes:
+                for rd_ in reads_other:
+                    if N(rd_) != N(wr['inner'][0]).replace('this.', 'other.'):
+                        hazard = (wr, rd_)
+            okd = (len(delegates) == 1 and not writes) or (not delegates and hazard is None and bool(writes))
+            ctx.check(okd and hazard is None, R, 'Matrix4<%s>|M*=N|no-aliasing-hazard' % T, hazard[0] if hazard else mme[0], 'the product is computed by operator* into a separate matrix and then assigned',
+                      'operator*= writes `%s` while `%s` is still to be read: when the argument is the matrix itself (m *= m) later rows are computed from already overwritten entries' % ((N(hazard[0]['inner'][0]), N(hazard[1])) if hazard else ('?', '?')))
+            tr = ms.get('transposition', [None])[0]
+            if tr is not None:
+                st = [N(x) for x in walk(body_of(tr)) if x.get('kind') == 'BinaryOperator' and x.get('opcode') == '=']
+                ctx.check(st == ['(res.m[y][x] = this.m[x][y])'], R, 'Matrix4<%s>|transposition' % T, tr, 'res.m[y][x] = m[x][y]', 'transposition is %s' % st)
+            inv = ms.get('invert', [None])[0]
+            if inv is not None:
+                ctx.fn('Matrix4<%s>::invert' % T)
+                inner = [lp for lp in walk(body_of(inv)) if lp.get('kind') == 'ForStmt' and any(x.get('kind') == 'CompoundAssignOperator' for x in stmts_of(loop_body(lp)) if True) and
+                         all(strip(s).get('kind') == 'CompoundAssignOperator' for s in stmts_of(loop_body(lp)))]
+                ctx.need(len(inner) == 2, 'invert: row-operation loops not found (%d)' % len(inner))
+                for i, lp in enumerate(inner):
+                    init, cv, cond, inc, lbody = for_parts(lp)
+                    vd = next(v for v in walk(init) if v.get('kind') == 'VarDecl')
+                    full = int_value(kids(vd)[-1]) == 0 and N(cond) == '(%s < 4)' % vd['name'] and N(inc) == '(%s++)' % vd['name']
+                    st = [N(s) for s in stmts_of(lbody)]
+                    paired = len(st) == 2 and st[0].replace('left.', 'this.') == st[1] and st[0] != st[1]
+                    ctx.check(full and paired, R, 'Matrix4<%s>|invert|row-op#%d' % (T, i), lp, 'the row operation is applied to both matrices over all four columns',
+                              'a row operation in invert() %s: %s' % ('does not cover all four columns (the accumulating inverse is not zero left of the pivot)' if not full else 'is not applied identically to both matrices', st))
+                piv = [x for x in walk(body_of(inv)) if x.get('kind') == 'IfStmt' and 'row_divisor' in N(if_parts(x)[0]) and any(t.get('kind') == 'CXXThrowExpr' for t in walk(if_parts(x)[1]))]
+                ctx.check(len(piv) == 1, R, 'Matrix4<%s>|invert|zero-pivot' % T, inv, 'a zero pivot throws', 'zero-pivot handling changed')
 
-    # a const reference to an element that the function goes on to overwrite is not a captured value
-    n_al = 0
-    for f in w.functions:
-        q = strip_targs(w.qualname(f))
-        if not (q.startswith('phosg::Matrix4') or q.startswith('phosg::Vector')) or is_dependent_pattern(f, w) or body_of(f) is None:
-            continue
-        for vd, wn, rd in aliased_reference_locals(f):
-            n_al += 1
-            ctx.bad(R, '%s|aliased-reference|%s' % (w.qualname(f), vd.get('name')), vd, '`%s` is a reference to %s, which `%s` overwrites while the reference is still read at line %s: from that point it no longer holds the value it was meant to capture (take a copy)' % (vd.get('name'), src_text(kids(vd)[-1], 40), src_text(wn, 50), rd.get('_line')))
-    if not n_al:
-        ctx.ok(R, 'no-aliased-reference-locals', 'Vector-inl.hh', 'no const reference local aliases an element written while it is read', nontrivial=False)
+        # a const reference to an element that the function goes on to overwrite is not a captured value
+        n_al = 0
+        for f in w.functions:
+            q = strip_targs(w.qualname(f))
+            if not (q.startswith('phosg::Matrix4') or q.startswith('phosg::Vector')) or is_dependent_pattern(f, w) or body_of(f) is None:
+                continue
+            for vd, wn, rd in aliased_reference_locals(f):
+                n_al += 1
+                ctx.bad(R, '%s|aliased-reference|%s' % (w.qualname(f), vd.get('name')), vd, '`%s` is a reference to %s, which `%s` overwrites while the reference is still read at line %s: from that point it no longer holds the value it was meant to capture (take a copy)' % (vd.get('name'), src_text(kids(vd)[-1], 40), src_text(wn, 50), rd.get('_line')))
+        if not n_al:
+            ctx.ok(R, 'no-aliased-reference-locals', 'Vector-inl.hh', 'no const reference local aliases an element written while it is read', nontrivial=False)
 
     # ---------------- R4
-    R = 'C20-R4'
-    ri = ur.func('phosg::random_int')[0]
-    ctx.fn('random_int')
-    rng = next((v for v in walk(body_of(ri)) if v.get('kind') == 'VarDecl' and v.get('name') == 'range'), None)
-    ctx.check(rng is not None and N(kids(rng)[-1]) in ('(1 + (high - low))', '((high - low) + 1)'), R, 'random_int|range', rng or ri, 'range = high - low + 1', 'range is %s' % (N(kids(rng)[-1]) if rng else None))
-    rets = [r for r in walk(body_of(ri)) if r.get('kind') == 'ReturnStmt']
-    ctx.require(len(rets) >= 4, 'random_int: returns not found')
-    for i, r in enumerate(rets):
-        e = strip(kids(r)[0])
-        ok = False
-        why = 'return value is %s' % N(e)
-        # low + (U % range)
-        if e.get('kind') == 'BinaryOperator' and e.get('opcode') == '+':
-            parts = [strip(x) for x in e['inner']]
-            lowp = [p for p in parts if (ref_decl(p) or {}).get('name') == 'low']
-            modp = [p for p in parts if p.get('kind') == 'BinaryOperator' and p.get('opcode') == '%']
-            if lowp and modp:
-                m = modp[0]
-                uexp = strip(m['inner'][0], casts=False)
-                call = next((c for c in walk(m['inner'][0]) if c.get('kind') == 'CallExpr'), None)
-                ut = dtype(call) if call is not None else None
-                ui = int_type_info(ut) if ut else None
-                is_range = (ref_decl(m['inner'][1]) or {}).get('name') == 'range'
-                # class bound from the facts
-                lim = None
-                for n_, pol in atoms(path_facts(r)):
-                    rr = relation(n_, pol)
-                    if rr and N(rr[0]) == 'range' and rr[1] == '<=' and int_value(rr[2]) is not None:
-                        lim = min(lim, int_value(rr[2])) if lim is not None else int_value(rr[2])
-                need_bits = 64 if lim is None else max(8, (lim).bit_length())
-                ok = is_range and ui is not None and not ui[1] and ui[0] >= need_bits
-                why = 'random source %s (%s bits%s) for a range of up to %s' % (ut, ui[0] if ui else '?', ', signed' if ui and ui[1] else '', lim if lim is not None else '2^63')
-        ctx.check(ok, R, 'random_int|return#%d' % i, r, 'low + (unsigned random %% range)', 'random_int can return a value outside [low, high]: %s' % why)
+    with ctx.section('C20-R4', 'Vector-inl.hh'):
+        R = 'C20-R4'
+        ri = ur.func('phosg::random_int')[0]
+        ctx.fn('random_int')
+        rng = next((v for v in walk(body_of(ri)) if v.get('kind') == 'VarDecl' and v.get('name') == 'range'), None)
+        ctx.check(rng is not None and N(kids(rng)[-1]) in ('(1 + (high - low))', '((high - low) + 1)'), R, 'random_int|range', rng or ri, 'range = high - low + 1', 'range is %s' % (N(kids(rng)[-1]) if rng else None))
+        rets = [r for r in walk(body_of(ri)) if r.get('kind') == 'ReturnStmt']
+        ctx.need(len(rets) >= 4, 'random_int: returns not found')
+        for i, r in enumerate(rets):
+            e = strip(kids(r)[0])
+            ok = False
+            why = 'return value is %s' % N(e)
+            # low + (U % range)
+            if e.get('kind') == 'BinaryOperator' and e.get('opcode') == '+':
+                parts = [strip(x) for x in e['inner']]
+                lowp = [p for p in parts if (ref_decl(p) or {}).get('name') == 'low']
+                modp = [p for p in parts if p.get('kind') == 'BinaryOperator' and p.get('opcode') == '%']
+                if lowp and modp:
+                    m = modp[0]
+                    uexp = strip(m['inner'][0], casts=False)
+                    call = next((c for c in walk(m['inner'][0]) if c.get('kind') == 'CallExpr'), None)
+                    ut = dtype(call) if call is not None else None
+                    ui = int_type_info(ut) if ut else None
+                    is_range = (ref_decl(m['inner'][1]) or {}).get('name') == 'range'
+                    # class bound from the facts
+                    lim = None
+                    for n_, pol in atoms(path_facts(r)):
+                        rr = relation(n_, pol)
+                        if rr and N(rr[0]) == 'range' and rr[1] == '<=' and int_value(rr[2]) is not None:
+                            lim = min(lim, int_value(rr[2])) if lim is not None else int_value(rr[2])
+                    need_bits = 64 if lim is None else max(8, (lim).bit_length())
+                    ok = is_range and ui is not None and not ui[1] and ui[0] >= need_bits
+                    why = 'random source %s (%s bits%s) for a range of up to %s' % (ut, ui[0] if ui else '?', ', signed' if ui and ui[1] else '', lim if lim is not None else '2^63')
+            ctx.check(ok, R, 'random_int|return#%d' % i, r, 'low + (unsigned random %% range)', 'random_int can return a value outside [low, high]: %s' % why)
     # ---------------- R5 random_data: one destination cursor, advanced by what was copied
-    R = 'C20-R5'
-    rdf = next((f for f in ur.func('phosg::random_data') if len(params_of(f)) == 2), None)
-    ctx.require(rdf is not None, 'random_data(void*, size_t) not found')
-    ctx.fn('random_data')
-    rb = body_of(rdf)
+    with ctx.section('C20-R5', 'Vector-inl.hh'):
+        R = 'C20-R5'
+        rdf = next((f for f in ur.func('phosg::random_data') if len(params_of(f)) == 2), None)
+        ctx.require(rdf is not None, 'random_data(void*, size_t) not found')
+        ctx.fn('random_data')
+        rb = body_of(rdf)
 
-    def root_var(e):
-        e = strip(e)
-        while e is not None and e.get('kind') in ('CStyleCastExpr', 'CXXReinterpretCastExpr', 'CXXStaticCastExpr', 'ImplicitCastExpr', 'ParenExpr', 'CXXFunctionalCastExpr') and kids(e):
-            e = strip(kids(e)[0])
-        return ref_decl(e) if e is not None and e.get('kind') == 'DeclRefExpr' else None
-    copies = [c for c in walk(rb) if c.get('kind') == 'CallExpr' and call_name(c) in ('memcpy', 'memmove')]
-    ctx.require(len(copies) >= 1, 'random_data: no memcpy found')
-    dsts = [root_var(call_args(c)[0]) for c in copies]
-    advs = []
-    for x in walk(rb):
-        if x.get('kind') in ('BinaryOperator', 'CompoundAssignOperator') and x.get('opcode') in ('=', '+=') and '*' in (dtype(x['inner'][0]) or '') and ref_decl(x['inner'][0]):
-            advs.append(x)
-    loops = [x for x in walk(rb) if x.get('kind') == 'WhileStmt']
-    adv_vars = {ref_decl(a['inner'][0])['id'] for a in advs if any(a in list(walk(lp)) for lp in loops)}
-    okc = all(d is not None for d in dsts) and len({d['id'] for d in dsts if d}) == 1 and ({d['id'] for d in dsts if d} == adv_vars or not loops)
-    ctx.check(okc, R, 'random_data|single-destination-cursor', copies[-1], 'every copy writes through the cursor that the refill loop advances',
-              'copies write through %s while the loop advances %s: after a refill the remaining bytes land at the wrong place and part of the request is never written' % (sorted({(d or {}).get('name', '?') for d in dsts}), sorted({(unit_name(a)) for a in advs})))
-    if loops:
-        lp = loops[0]
-        lcopy = [c for c in copies if any(c is y for y in walk(lp))]
-        okl = len(lcopy) == 1
-        why = 'expected one copy in the refill loop'
-        if okl:
-            n_ = nf(call_args(lcopy[0])[2])
-            srcn = nf(call_args(lcopy[0])[1])
-            from guard import subst_locals
-            cnt_ids = {params_of(rdf)[1]['id']} | {v_['id'] for v_ in walk(rb) if v_.get('kind') == 'VarDecl' and kids(v_) and nf(kids(v_)[-1]) == params_of(rdf)[1]['name']}
-            cnt_names = {params_of(rdf)[1]['name']} | {v_['name'] for v_ in walk(rb) if v_.get('kind') == 'VarDecl' and kids(v_) and nf(kids(v_)[-1]) == params_of(rdf)[1]['name']}
-            n_ = subst_locals(n_, lcopy[0])
-            subs = [subst_locals(nf(x['inner'][1]), x) for x in walk(lp) if x.get('kind') == 'CompoundAssignOperator' and x.get('opcode') == '-=' and (ref_decl(x['inner'][0]) or {}).get('id') in cnt_ids]
-            adva = []
-            for a in advs:
-                if any(a is y for y in walk(lp)):
-                    if a.get('opcode') == '+=':
-                        adva.append(subst_locals(nf(a['inner'][1]), a))
-                    else:
-                        e = strip(a['inner'][1])
-                        while e.get('kind') in ('CStyleCastExpr', 'CXXReinterpretCastExpr', 'CXXStaticCastExpr', 'ParenExpr') and kids(e):
-                            e = strip(kids(e)[0])
-                        adva.append(nf(e['inner'][1]) if e.get('kind') == 'BinaryOperator' and e.get('opcode') == '+' else '?')
-            refill = [x for x in walk(lp) if x.get('kind') == 'CXXOperatorCallExpr' and call_name(x) == 'operator=' and nf(kids(x)[1]) == srcn.replace('.data()', '')]
-            order = bool(refill) and all(y.get('_off', 0) < refill[0].get('_off', 0) for y in [lcopy[0]] + [a for a in advs if any(a is z for z in walk(lp))])
-            okl = subs == [n_] and adva == [n_] and order and nf(while_parts(lp)[0]) in {'(%s < %s)' % (n_, c_) for c_ in cnt_names}
-            why = 'loop copies %s bytes, subtracts %s, advances by %s, refill-after-accounting=%s, condition %s' % (n_, subs, adva, order, nf(while_parts(lp)[0]))
-        ctx.check(okl, R, 'random_data|refill-accounting', lp, 'each turn copies the whole pool, subtracts and advances by the same amount, then refills', 'the refill loop accounting is inconsistent: ' + why)
-    tail = [c for c in copies if not any(c is y for lp in loops for y in walk(lp))]
-    okt = len(tail) == 1
-    why = 'expected one copy after the loop'
-    if okt:
-        a = call_args(tail[0])
-        rs = [c for c in walk(rb) if c.get('kind') == 'CXXMemberCallExpr' and call_name(c) == 'resize' and c.get('_off', 0) > tail[0].get('_off', 0)]
-        from guard import subst_locals as _sl
-        cnt_names2 = {params_of(rdf)[1]['name']} | {v_['name'] for v_ in walk(rb) if v_.get('kind') == 'VarDecl' and kids(v_) and nf(kids(v_)[-1]) == params_of(rdf)[1]['name']}
-        okt = False
-        for cn_ in cnt_names2:
-            srcs_ = {renorm(x_) for x_ in ('(buffer.data() + buffer.size() + -%s)' % cn_, '((buffer.data() + buffer.size()) - %s)' % cn_, '(buffer.data() + (buffer.size() - %s))' % cn_, '(-%s + buffer.data() + buffer.size())' % cn_)}
-            if nf(a[2]) == cn_ and renorm(_sl(nf(a[1]), a[1])) in srcs_ and len(rs) == 1 and renorm(_sl(nf(call_args(rs[0])[0]), rs[0])) == renorm('(buffer.size() - %s)' % cn_):
-                okt = True
-        why = 'tail copies %s bytes from %s, then resize(%s)' % (nf(a[2]), nf(a[1]), nf(call_args(rs[0])[0]) if rs else '?')
-    ctx.check(okt, R, 'random_data|tail', tail[0] if tail else rdf, 'the remaining bytes come from the end of the pool and are removed from it', 'the final copy does not take exactly the remaining bytes from the pool and drop them: ' + why)
+        def root_var(e):
+            e = strip(e)
+            while e is not None and e.get('kind') in ('CStyleCastExpr', 'CXXReinterpretCastExpr', 'CXXStaticCastExpr', 'ImplicitCastExpr', 'ParenExpr', 'CXXFunctionalCastExpr') and kids(e):
+                e = strip(kids(e)[0])
+            return ref_decl(e) if e is not None and e.get('kind') == 'DeclRefExpr' else None
+        copies = [c for c in walk(rb) if c.get('kind') == 'CallExpr' and call_name(c) in ('memcpy', 'memmove')]
+        ctx.need(len(copies) >= 1, 'random_data: no memcpy found')
+        dsts = [root_var(call_args(c)[0]) for c in copies]
+        advs = []
+        for x in walk(rb):
+            if x.get('kind') in ('BinaryOperator', 'CompoundAssignOperator') and x.get('opcode') in ('=', '+=') and '*' in (dtype(x['inner'][0]) or '') and ref_decl(x['inner'][0]):
+                advs.append(x)
+        loops = [x for x in walk(rb) if x.get('kind') == 'WhileStmt']
+        adv_vars = {ref_decl(a['inner'][0])['id'] for a in advs if any(a in list(walk(lp)) for lp in loops)}
+        okc = all(d is not None for d in dsts) and len({d['id'] for d in dsts if d}) == 1 and ({d['id'] for d in dsts if d} == adv_vars or not loops)
+        ctx.check(okc, R, 'random_data|single-destination-cursor', copies[-1], 'every copy writes through the cursor that the refill loop advances',
+                  'copies write through %s while the loop advances %s: after a refill the remaining bytes land at the wrong place and part of the request is never written' % (sorted({(d or {}).get('name', '?') for d in dsts}), sorted({(unit_name(a)) for a in advs})))
+        if loops:
+            lp = loops[0]
+            lcopy = [c for c in copies if any(c is y for y in walk(lp))]
+            okl = len(lcopy) == 1
+            why = 'expected one copy in the refill loop'
+            if okl:
+                n_ = nf(call_args(lcopy[0])[2])
+                srcn = nf(call_args(lcopy[0])[1])
+                from guard import subst_locals
+                cnt_ids = {params_of(rdf)[1]['id']} | {v_['id'] for v_ in walk(rb) if v_.get('kind') == 'VarDecl' and kids(v_) and nf(kids(v_)[-1]) == params_of(rdf)[1]['name']}
+                cnt_names = {params_of(rdf)[1]['name']} | {v_['name'] for v_ in walk(rb) if v_.get('kind') == 'VarDecl' and kids(v_) and nf(kids(v_)[-1]) == params_of(rdf)[1]['name']}
+                n_ = subst_locals(n_, lcopy[0])
+                subs = [subst_locals(nf(x['inner'][1]), x) for x in walk(lp) if x.get('kind') == 'CompoundAssignOperator' and x.get('opcode') == '-=' and (ref_decl(x['inner'][0]) or {}).get('id') in cnt_ids]
+                adva = []
+                for a in advs:
+                    if any(a is y for y in walk(lp)):
+                        if a.get('opcode') == '+=':
+                            adva.append(subst_locals(nf(a['inner'][1]), a))
+                        else:
+                            e = strip(a['inner'][1])
+                            while e.get('kind') in ('CStyleCastExpr', 'CXXReinterpretCastExpr', 'CXXStaticCastExpr', 'ParenExpr') and kids(e):
+                                e = strip(kids(e)[0])
+                            adva.append(nf(e['inner'][1]) if e.get('kind') == 'BinaryOperator' and e.get('opcode') == '+' else '?')
+                refill = [x for x in walk(lp) if x.get('kind') == 'CXXOperatorCallExpr' and call_name(x) == 'operator=' and nf(kids(x)[1]) == srcn.replace('.data()', '')]
+                order = bool(refill) and all(y.get('_off', 0) < refill[0].get('_off', 0) for y in [lcopy[0]] + [a for a in advs if any(a is z for z in walk(lp))])
+                okl = subs == [n_] and adva == [n_] and order and nf(while_parts(lp)[0]) in {'(%s < %s)' % (n_, c_) for c_ in cnt_names}
+                why = 'loop copies %s bytes, subtracts %s, advances by %s, refill-after-accounting=%s, condition %s' % (n_, subs, adva, order, nf(while_parts(lp)[0]))
+            ctx.check(okl, R, 'random_data|refill-accounting', lp, 'each turn copies the whole pool, subtracts and advances by the same amount, then refills', 'the refill loop accounting is inconsistent: ' + why)
+        tail = [c for c in copies if not any(c is y for lp in loops for y in walk(lp))]
+        okt = len(tail) == 1
+        why = 'expected one copy after the loop'
+        if okt:
+            a = call_args(tail[0])
+            rs = [c for c in walk(rb) if c.get('kind') == 'CXXMemberCallExpr' and call_name(c) == 'resize' and c.get('_off', 0) > tail[0].get('_off', 0)]
+            from guard import subst_locals as _sl
+            cnt_names2 = {params_of(rdf)[1]['name']} | {v_['name'] for v_ in walk(rb) if v_.get('kind') == 'VarDecl' and kids(v_) and nf(kids(v_)[-1]) == params_of(rdf)[1]['name']}
+            okt = False
+            for cn_ in cnt_names2:
+                srcs_ = {renorm(x_) for x_ in ('(buffer.data() + buffer.size() + -%s)' % cn_, '((buffer.data() + buffer.size()) - %s)' % cn_, '(buffer.data() + (buffer.size() - %s))' % cn_, '(-%s + buffer.data() + buffer.size())' % cn_)}
+                if nf(a[2]) == cn_ and renorm(_sl(nf(a[1]), a[1])) in srcs_ and len(rs) == 1 and renorm(_sl(nf(call_args(rs[0])[0]), rs[0])) == renorm('(buffer.size() - %s)' % cn_):
+                    okt = True
+            why = 'tail copies %s bytes from %s, then resize(%s)' % (nf(a[2]), nf(a[1]), nf(call_args(rs[0])[0]) if rs else '?')
+        ctx.check(okt, R, 'random_data|tail', tail[0] if tail else rdf, 'the remaining bytes come from the end of the pool and are removed from it', 'the final copy does not take exactly the remaining bytes from the pool and drop them: ' + why)
     ctx.note('Vector classes instantiated for int64_t (all members) and double (cross, dot, <); Matrix4 for int64_t and double. Not decided: reduce_fraction coprimality, inverse accuracy.')
 
 
